@@ -60,3 +60,42 @@ package validation
 //@   ensures[units] result1 == (isDim && in(lu, "rad", "turn", "deg", "grad"))
 //@   ensures[rad] isDim && lu == "rad" ==> result0 == d.ValueF
 //@   ensures[not-angle] !result1 ==> result0 == 0
+
+//@ func HasVar
+//@   props C08
+//@   modifies nothing
+
+//@ func findVar
+//@   props C08
+//@   modifies nothing
+//@   ensures len(tokens) == 0 ==> !result1
+//@   loop 1 invariant true
+//@   loop 2 invariant fresh(out)
+
+// validators read their token lists (assumed, the dispatch goes through a table of ~200 validators)
+//@ func validateNonShorthand
+//@   props C08
+//@   modifies nothing
+//@   trusted "frame only: validators do not write to the token list they are given or to anything reachable from the caller's state"
+
+// margin / padding / border-width / border-style / border-color / bleed: one to four values,
+// CSS 2.1 §8.3: one value applies to all sides; two: top/bottom, right/left; three: top,
+// right/left, bottom; four: top, right, bottom, left.
+// (with three values the fourth is appended to the caller's slice: it may use its spare capacity)
+//@ func expandFourSides
+//@   props C08
+//@   modifies tokens[..]
+//@   let n = len(tokens)
+//@   call validateNonShorthand#1 assert len(arg2) == 1 && arg3
+//@   call validateNonShorthand#1 assert old(n) == 1 ==> arg2[0] == old(tokens[0])
+//@   call validateNonShorthand#1 assert old(n) == 2 ==> arg2[0] == ite(rangeindex == 0 || rangeindex == 2, old(tokens[0]), old(tokens[1]))
+//@   call validateNonShorthand#1 assert old(n) == 3 ==> arg2[0] == ite(rangeindex == 0, old(tokens[0]), ite(rangeindex == 2, old(tokens[2]), old(tokens[1])))
+//@   call validateNonShorthand#1 assert old(n) == 4 ==> arg2[0] == ite(rangeindex == 0, old(tokens[0]), ite(rangeindex == 1, old(tokens[1]), ite(rangeindex == 2, old(tokens[2]), old(tokens[3]))))
+//@   ensures[arity] old(n) == 0 ==> err != nil
+//@   loop 1 invariant rangeindex < 4 && forall(k, 0, len(tokens), tokens[k] == old(tokens[k]))
+//@   loop 2 invariant fresh(out) && rangeindex < 4 && len(tokens) == 4
+//@   loop 2 invariant old(n) == 1 ==> tokens[0] == old(tokens[0]) && tokens[1] == old(tokens[0]) && tokens[2] == old(tokens[0]) && tokens[3] == old(tokens[0])
+//@   loop 2 invariant old(n) == 2 ==> tokens[0] == old(tokens[0]) && tokens[1] == old(tokens[1]) && tokens[2] == old(tokens[0]) && tokens[3] == old(tokens[1])
+//@   loop 2 invariant old(n) == 3 ==> tokens[0] == old(tokens[0]) && tokens[1] == old(tokens[1]) && tokens[2] == old(tokens[2]) && tokens[3] == old(tokens[1])
+//@   loop 2 invariant old(n) == 4 ==> tokens[0] == old(tokens[0]) && tokens[1] == old(tokens[1]) && tokens[2] == old(tokens[2]) && tokens[3] == old(tokens[3])
+//@   loop 2 invariant old(n) >= 1 && old(n) <= 4
